@@ -19,19 +19,19 @@ CHECK = {
     ],
     "units": [
         unit("storagex-mem", "storagex", _C13_COMMON, "^TestVerif_C13_Mem$",
-             quick={"checks": 1500, "shards": 1, "cap": 600},
+             quick={"checks": 1200, "shards": 1, "cap": 600},
              thorough={"checks": 6000, "shards": 16, "cap": 2400}, no_ulimit=True,
              floors=_c13_floors(["inmem", "inmem-notx"], ["inmemstorage", "inmem+cache+physview", "inmem+barrier+storageview"])),
         unit("storagex-file", "storagex", _C13_COMMON, "^TestVerif_C13_File$",
-             quick={"checks": 300, "shards": 1, "cap": 600},
+             quick={"checks": 240, "shards": 1, "cap": 600},
              thorough={"checks": 1500, "shards": 16, "cap": 2400}, no_ulimit=True,
              floors=_c13_floors(["file"])),
         unit("storagex-fsm", "storagex", _C13_COMMON, "^TestVerif_C13_FSM$",
-             quick={"checks": 200, "shards": 1, "cap": 600, "shrinktime": "15s"},
+             quick={"checks": 160, "shards": 1, "cap": 600, "shrinktime": "15s"},
              thorough={"checks": 1000, "shards": 16, "cap": 2400, "shrinktime": "15s"}, no_ulimit=True,
              floors=_c13_floors(["fsm"])),
         unit("raft-listing", "raft", ["raft/c13_raft_test.go"], "^TestVerif_C13_RaftListing$",
-             quick={"checks": 400, "shards": 1, "cap": 600, "shrinktime": "15s"},
+             quick={"checks": 300, "shards": 1, "cap": 600, "shrinktime": "15s"},
              thorough={"checks": 2000, "shards": 16, "cap": 2400, "shrinktime": "15s"}, no_ulimit=True,
              floors={"raft-listing": {"nontrivial": 0.07}}),
     ],
